@@ -17,6 +17,10 @@ def instances(tier):
     L += [
         I("l2_restart2", trig="size", count=1, limit=2, sizes=(1, 2), pre="PreB", maxrec=4, restart=2),
         I("l1_delete", trig="size", roller="delete", count=0, limit=1, sizes=(1, 2), pre="PreB", maxrec=4, restart=1),
+        # the size shown to the policy must stay exact when a roll fails and the file stays in place
+        I("l2_fault", trig="size", count=2, limit=2, sizes=(1, 3), pre="PreNone", maxrec=4, faults=1),
+        I("l1_fault_t", trig="size", append=False, count=1, limit=1, sizes=(1, 2), pre="PreNone", maxrec=4, faults=1),
+        I("l2_obst", trig="size", count=2, limit=2, sizes=(1, 3), pre="PreNone", maxrec=3, obst=1),
         I("big", trig="size", count=2, limit=3, sizes=(1, 2, 4), pre="PreB", maxrec=6, restart=2, hist=False),
         I("big_t", trig="size", count=2, append=False, limit=2, sizes=(1, 2, 3), pre="PreB", maxrec=6, restart=2, hist=False),
     ]
